@@ -74,8 +74,23 @@ def gen_case(rng, oversize=False):
         frames_pol.append(dict(
             fate=fate, delay=rng.choice([0.0001, 0.0003, 0.001, 0.004]),
             wkc0=[rng.random() < 0.15 for _ in range(16)]))
+    narrow = rng.choice([0, 0, 0, 6, 12])
+    if narrow:
+        # identifiers are reused quickly in these histories: a response
+        # that arrives after its frame is done (a duplicate, a frame whose
+        # callers have given up) would meet a new frame with the same
+        # identifier - which the real range of 10^9 makes practically
+        # impossible and the statement does not cover. Frames are delivered
+        # once or lost (a lost frame's identifier stays in use for ever),
+        # nobody gives up
+        for f in frames_pol:
+            if f["fate"] in ("dup", "slow"):
+                f["fate"] = "deliver"
+        for r in reqs:
+            r["cancel"] = None
     return dict(reqs=reqs, frames=frames_pol, key=rng.getrandbits(8),
                 rseed=rng.getrandbits(32), oversize=oversize,
+                narrow_indices=narrow,
                 # the second and later masters on an interface use another
                 # ethertype than the default
                 ethertype=rng.choice([0x88A4, 0x88A4, 0x3000, 0x4567]))
@@ -227,6 +242,22 @@ def run_history(case):
     root.handlers = [h]
     root.setLevel(logging.WARNING)
     ecmod.Packet = CountingPacket
+    real_randint = ecmod.randint
+    if case.get("narrow_indices"):
+        # the random frame identifiers come from a dozen values most of the
+        # time (a wide draw now and then, so that a free one is always
+        # found): identifiers of frames in flight are drawn again and again
+        rr = random.Random(case["rseed"] ^ 0x5a5a)
+        k = case["narrow_indices"]
+
+        def narrow(a, b):
+            if (a, b) != (2000, 1000000000):
+                return real_randint(a, b)
+            log["narrow_draws"] = log.get("narrow_draws", 0) + 1
+            if rr.random() < 0.75:
+                return a + rr.randrange(k)
+            return rr.randint(a, b)
+        ecmod.randint = narrow
     try:
         try:
             return aio.run(main, max_iterations=400000)
@@ -235,6 +266,7 @@ def run_history(case):
             return log
     finally:
         ecmod.Packet = RealPacket
+        ecmod.randint = real_randint
         root.handlers = oldhandlers
         root.setLevel(oldlevel)
 
